@@ -102,6 +102,18 @@ def _judge(ctx, ws, insts, lo, hi, lo_s, hi_s, text=None, crlf=False, binary_b64
     r_with = real.match(ws.write("w.yaml", with_rule), lp, ret="stream", binary=binary, macros=macros)
     r_wo = real.match(ws.write("wo.yaml", real.dump_rule({"pattern": ["zzzzzz"]})), lp, ret="stream", binary=binary)
     ctx.ran(2)
+    if r_with[0] == "ok" and ctx.rng.random() < 0.15:
+        # history: a rule that is REJECTED while its config is being loaded (a range of its own, then an ill-typed sections entry), then the
+        # same good rule again - the good rule still means its own range
+        bad = real.dump_rule({"config": {"valid_addr_range": {"min": "0", "max": "ffffffffffff"}, "sections": "not-a-list"}, "pattern": ["zzzzzz"]})
+        rb = real.match(ws.write("bad_cfg.yaml", bad), lp, ret="stream", binary=binary)
+        again = real.match(ws.path("w.yaml"), lp, ret="stream", binary=binary, macros=macros)
+        ctx.ran(2)
+        ctx.event("good_rule_rerun_after_a_rejected_config" if rb[0] == "exc" else "config_with_ill_typed_sections_was_accepted")
+        if again[0] != "ok" or again[1] != r_with[1]:
+            ctx.disagreement({"listing": text, "min": lo_s, "max": hi_s, "crlf": crlf, "binary_b64": binary_b64, "history": "rejected-config"},
+                             f"the rule with valid_addr_range {lo_s}..{hi_s} builds another stream after a rule whose config was rejected half-way had been tried")
+            return
     case = {"listing": text, "min": lo_s, "max": hi_s, "crlf": crlf, "binary_b64": binary_b64, "macro_lib": open(macros[0]).read() if macros else None}
     if r_wo[0] != "ok":
         ctx.inconc("parser raised without the option (left to C08)")
@@ -220,6 +232,9 @@ def run_shard(ctx):
     n = ctx.share(3000, 200000)
     for _ in range(n):
         insts, lo, hi = gen(ctx.rng)
+        if ctx.rng.random() < 0.08 and hi > lo:
+            lo, hi = hi, lo                   # bounds written the wrong way round: min <= T <= max holds for no T
+            ctx.event("inverted_ranges_judged")
         judge(ctx, ws, insts, lo, hi, spell(ctx.rng, lo), spell(ctx.rng, hi), crlf=ctx.rng.random() < 0.12)
     binary_stratum(ctx, ws, ctx.share(48, 3000))
 
